@@ -34,6 +34,9 @@ class Minimal:
     def truncate(self, size=None):
         if size is None:
             size = self._p
+        # documented: "The current position or given size will never be larger than the file size"
+        if size > len(self._d):
+            raise OSError(22, "truncate beyond the end of the file is outside the documented interface")
         del self._d[size:]
 
     def flush(self):
